@@ -113,8 +113,8 @@ def run_fixtures(rep: Report, prop: str, jobs: Optional[int] = None) -> None:
         return
     base_keys = {f.key() for f in rep.findings}
     work = [(prop, rep.root, rep.tier, v, base_keys) for v in vs]
-    jobs = jobs or (min(16, os.cpu_count() or 4) if rep.tier == "thorough" else 1)
-    if jobs > 1 and len(work) > 3:
+    jobs = jobs or (min(16, os.cpu_count() or 4) if rep.tier == "thorough" else min(4, len(work)))
+    if jobs > 1 and len(work) > 1:
         import multiprocessing as mp
 
         with mp.get_context("fork").Pool(jobs) as pool:
